@@ -61,7 +61,7 @@ def run(rep, tier, seed, selftest, st):
         r["runs"][1]["ok"] = False
         p2 = os.path.join(common.WORK, "selftest-C11-perms-verdict.ndjson")
         open(p2, "w").write(json.dumps(r, separators=(",", ":")) + "\n")
-        res = {x["file"]: x for x in common.tlc_traces("Trace_Containers", "Trace_Containers_rule.cfg", [p1, p2])}
+        res = {x["file"]: x for x in common.tlc_traces("Trace_Containers", "Trace_Containers_rule.cfg", [p1, p2], extra_env=mu.probe_fixes())}
         st["selftests"]["perms_different_output_rejected"] = not res[p1]["accepted"]
         st["selftests"]["perms_different_verdict_rejected"] = not res[p2]["accepted"]
     st["traces_ok"] += ok_runs
